@@ -722,7 +722,7 @@ func (sm *ServerManager) CreateGroup(appName string, streamName string) *Group {
 // ----- implement IGroupObserver interface -----------------------------------------------------------------------------
 
 func (sm *ServerManager) CleanupHlsIfNeeded(appName string, streamName string, path string) {
-	if sm.config.HlsConfig.Enable &&
+	if (sm.config.HlsConfig.Enable || sm.config.HlsConfig.EnableHttps) &&
 		(sm.config.HlsConfig.CleanupMode == hls.CleanupModeInTheEnd || sm.config.HlsConfig.CleanupMode == hls.CleanupModeAsap) {
 		defertaskthread.Go(
 			sm.config.HlsConfig.FragmentDurationMs*(sm.config.HlsConfig.FragmentNum+sm.config.HlsConfig.DeleteThreshold),
